@@ -201,6 +201,13 @@ func (rt *runtime) cmplEvaluateNodeForInStatement(node *nodeForInStatement) Valu
 	for obj != nil {
 		enumerateValue := emptyValue
 		obj.enumerate(false, func(name string) bool {
+			// A property of a prototype is not enumerated if it is shadowed by a
+			// property of an object closer to the start of the chain.
+			for shadow := sourceObject; shadow != obj; shadow = shadow.prototype {
+				if shadow.getOwnProperty(name) != nil {
+					return true
+				}
+			}
 			into := rt.cmplEvaluateNodeExpression(into)
 			// In the case of: for (var abc in def) ...
 			if into.reference() == nil {
